@@ -937,3 +937,54 @@ Proof.
   destruct (received_v1_correct ss p Hok Hin) as (n & pn & d & Hs & _ & ->).
   exists n, pn, d. split; [exact Hs|]. exact Hb.
 Qed.
+
+(* ================= C09 bootstrap, end to end ================= *)
+(* the messages Report's proto.Unmarshal delivers for a round of senders *)
+Definition decoded (ver : Z) (base : dec) (ss : list sender) : list mobs :=
+  MercuryReport.omap (fun s => match sent ver base s with Some b => merc_decode234 ver b | None => None end) ss.
+Lemma omap_omap {A B C} (f : A -> option B) (g : B -> option C) (l : list A) :
+  MercuryReport.omap g (MercuryReport.omap f l) = MercuryReport.omap (fun x => match f x with Some y => g y | None => None end) l.
+Proof. induction l as [|x l IH]; [reflexivity|]. cbn [MercuryReport.omap]. destruct (f x) as [y|]; cbn [MercuryReport.omap]; [destruct (g y)|]; rewrite ?IH; reflexivity. Qed.
+Lemma parsed_decoded ver base ss : MercuryReport.omap (parse234 ver) (decoded ver base ss) = map fst (received ver base ss).
+Proof.
+  unfold decoded, received. rewrite omap_omap. induction ss as [|s ss IH]; [reflexivity|]. cbn [MercuryReport.omap]. unfold received1 at 1.
+  destruct (sent ver base s) as [b|]; [|exact IH]. destruct (merc_decode234 ver b) as [m|]; [|exact IH].
+  destruct (parse234 ver m) as [p|]; [|exact IH]. cbn [map fst]. rewrite IH. reflexivity.
+Qed.
+
+(* with no previous report and at most f faulty senders, a report's validity start is one past a max-finalized timestamp that
+   some correct node's data source returned - or, when that agreed value is negative ("none exists"), the report's own timestamp *)
+Theorem bootstrap_valid_from_traces_to_a_correct_data_source ver c base ss replen rf :
+  ver = 2 \/ ver = 3 \/ ver = 4 -> senders_ok ss ->
+  (length (filter (fun s => negb (is_correct s)) ss) <= mc_f c)%nat ->
+  report234 ver c None replen (decoded ver base ss) = Ok (true, Some rf) ->
+  exists n d m, In (Correct n d) ss /\ ds_mfts d = Some m /\ rf_valid_from rf = if m <? 0 then rf_ts rf else m + 1.
+Proof.
+  intros Hv Hok Hf H. unfold report234 in H. rewrite parsed_decoded in H.
+  set (paos := map fst (received ver base ss)) in *.
+  destruct paos as [|p0 paos'] eqn:Ep; [discriminate|]. rewrite <- Ep in *. clear Ep p0 paos'.
+  destruct (length paos <? mc_f c + 1)%nat; [discriminate|].
+  destruct (consensus_timestamp (map p_ts paos)) as [ts| |]; try discriminate.
+  destruct (max_finalized_ts (map p_mfts paos) (mc_f c)) as [m| |] eqn:Em.
+  2,3: (cbn [orb] in H; discriminate).
+  assert (Hsrc : exists n d, In (Correct n d) ss /\ ds_mfts d = Some m).
+  { unfold max_finalized_ts in Em.
+    apply (consensus_max_finalized_from_a_correct_data_source ver base ss (nodup_Z (valid_vals (map p_mfts paos))) (mc_f c) m Hv Hok Hf).
+    cbv zeta. subst paos. rewrite !map_map in *. cbn [fst] in *. exact Em. }
+  destruct Hsrc as (n & d & Hs & Hd). exists n, d, m. split; [exact Hs|]. split; [exact Hd|].
+  destruct (m <? 0) eqn:Eneg.
+  - match type of H with (if ?g then _ else _) = _ => destruct g; [discriminate|] end.
+    match type of H with (if ?g then _ else _) = _ => destruct g end.
+    + inversion H.
+    + match type of H with (if ?g then _ else _) = _ => destruct g; [|discriminate] end.
+      destruct (replen _) as [len| |]; try discriminate.
+      destruct (mc_maxlen c <? len)%nat; [discriminate|]. destruct (len =? 0)%nat; [discriminate|]. inversion H; reflexivity.
+  - destruct (max_uint32 <? m + 1) eqn:Eo.
+    + cbn [orb] in H. discriminate.
+    + match type of H with (if ?g then _ else _) = _ => destruct g; [discriminate|] end.
+      match type of H with (if ?g then _ else _) = _ => destruct g end.
+      * inversion H.
+      * match type of H with (if ?g then _ else _) = _ => destruct g; [|discriminate] end.
+        destruct (replen _) as [len| |]; try discriminate.
+        destruct (mc_maxlen c <? len)%nat; [discriminate|]. destruct (len =? 0)%nat; [discriminate|]. inversion H; reflexivity.
+Qed.
